@@ -780,7 +780,7 @@ func engineC12(c *vctx) error {
 			}
 		}
 	}
-	worlds := c.n(150, 2500)
+	worlds := c.n(100, 2500)
 	for i := 0; i < worlds; i++ {
 		rng := c.rng.fork()
 		n := 2 + rng.intn(3)
@@ -798,7 +798,7 @@ func engineC12(c *vctx) error {
 	if err != nil {
 		return err
 	}
-	for i := 0; i < c.n(40, 500); i++ {
+	for i := 0; i < c.n(30, 500); i++ {
 		if err := c12Stale(c, srepo, lockDir, c.rng.fork(), c12Stale0, dead); err != nil {
 			return err
 		}
